@@ -15,8 +15,8 @@ LEVEL_TEXT = ("for every drawn configuration the cancellation point is enumerate
               "sampled: one simulation per step n = 1..S of the group task (S = steps through "
               "start-up and the first three cycles), plus drawn cancellation times while the "
               "task is suspended; configurations (layout, jitter, terminal delays) are sampled")
-SCENARIOS = {"slow": 1, "fast": 1}
-TIERS = {"quick": {"runs": 320, "chunk": 4, "recheck": 2},
+SCENARIOS = {"slow": 2, "fast": 2, "process": 1}
+TIERS = {"quick": {"runs": 640, "chunk": 4, "recheck": 2},
          "thorough": {"runs": 6400, "chunk": 8, "recheck": 4}}
 RULE = ("one run = one drawn configuration (1-3 terminals, read-write or read-only, FMMU or "
         "direct, wire jitter, AL transition delays 0..2 polls) of a slow SyncGroup or a "
@@ -32,8 +32,9 @@ COMPONENTS = {
              "to_operational/set_state", "asyncio gather/wait_for/cancellation (CPython)"],
     "stub": ["event loop with per-task step hook", "socket", "wire", "ESC AL/FMMU model",
              "bpf() kernel side + interpreter (fast kind)"]}
-ASSUMPTIONS = ["the process-based kind is checked separately once the multi-process "
-               "scheduler is available (see DESIGN.md)",
+ASSUMPTIONS = ["process-based kind: parent and spawned child are simulated processes "
+               "(threads under the tape-driven scheduler); the child is observed through its "
+               "unpickled copy of the group",
                "cancellation is injected into the group task only (as SyncGroup users do)"]
 
 
@@ -146,6 +147,9 @@ def judge(kind, obs, where):
     for k, used in enumerate(obs["fmmu_used"]):
         if any(x is not None for x in used):
             return ("fmmu-not-freed", f"{where}: terminal {k} table {used}", {"kind": kind})
+    if kind == "process" and obs.get("child_state") not in ("exited", "never-started"):
+        return ("child-process-not-stopped",
+                f"{where}: the spawned process is {obs.get('child_state')}", {"kind": kind})
     if kind == "fast":
         if obs.get("sync_groups"):
             return ("group-still-registered", f"{where}: ec.sync_groups = "
@@ -159,19 +163,156 @@ def judge(kind, obs, where):
     return None
 
 
+def simulate_process(values, cancel_step=None, cancel_time=None):
+    """process-based kind: the parent's task is ProcessSyncGroup.wait_for_process"""
+    from ebpfcat.ebpfcat import ParallelEtherCat, ProcessSyncGroup
+
+    tape = values if isinstance(values, Tape) else Tape(replay=values)
+    env = Env(tape, with_kernel=True, with_fs=True,
+              faults=WireFaults(delay_buckets=(50e-6, 20e-6, 150e-6)))
+    world = env.world
+    sched = env.use_scheduler(preempt_bound=tape.draw("sched/bound", 3), preempt_den=6)
+    specs = wl.gen_specs(tape, "c24", max_terms=2, max_sz=6)
+    links = wl.gen_links(tape, specs, "c24", max_vars=2)
+    if not links:
+        links = [dict(term=0, sm="in" if specs[0]["in_sz"] else "out", pos=0, size="B")]
+    obs = dict(steps=0, cycles=0, outcome=None, ref_time=None, started=False)
+    holder = {}
+
+    async def parent(loop):
+        ec = ParallelEtherCat("sim0")
+        async with ec.run():
+            sims, terms = wl.build(env, ec, specs)
+            holder["sims"] = sims
+            for st in sims:
+                maxd = tape.draw("c24/al-maxdelay", 3)
+                st.al_delay = lambda frm, to, maxd=maxd: tape.draw("c24/al-delay", maxd + 1)
+            for t in terms:
+                t.mbx_lock = None
+            devices = build_devices_picklable(tape, terms, links)
+            sg = ProcessSyncGroup(ec, devices)
+            t0 = loop.time()
+            task = sg.start()
+
+            def hook(t):
+                if t is task:
+                    obs["steps"] += 1
+                    if cancel_step is not None and obs["steps"] == cancel_step:
+                        obs["started"] = any(st.al_log for st in sims)
+                        t.cancel()
+            loop.step_hook = hook
+            if cancel_time is not None:
+                def cancel_now():
+                    obs["started"] = any(st.al_log for st in sims)
+                    task.cancel()
+                loop.call_later(cancel_time, cancel_now)
+            if cancel_step is None and cancel_time is None:
+                # reference: let the child cycle a few times, then cancel
+                def child_cycles():
+                    return sum(1 for st in sims for k, v in st.al_log if k == "w" and v & 0xf == 8)
+                for _ in range(400):
+                    await asyncio.sleep(0.005)
+                    if task.done() or (child_cycles() and loop.time() - t0 > 0.08):
+                        break
+                obs["ref_steps"] = obs["steps"]
+                obs["ref_time"] = loop.time() - t0
+                obs["cycles"] = 3
+                task.cancel()
+            done, pending = await asyncio.wait([task], timeout=3.0)
+            loop.step_hook = None
+            if pending:
+                obs["outcome"] = "still-running"
+            elif task.cancelled():
+                obs["outcome"] = "cancelled"
+            else:
+                e = task.exception()
+                obs["outcome"] = "returned" if e is None else f"{type(e).__name__}: {e}"
+            await asyncio.sleep(0.1)
+            child = sg.process.proc if getattr(sg, "process", None) is not None else None
+            obs["child_state"] = child.state if child is not None else "never-started"
+            obs["al_logs"] = [list(st.al_log) for st in sims]
+            obs["al_states"] = [st.al_state for st in sims]
+            kids = env.spawn_ctx.children_objects
+            obs["fmmu_used"] = [list(t.fmmu_used) for g in kids for t in g.terminals] \
+                + [list(t.fmmu_used) for t in terms]
+            if pending:
+                sg.runningValue.value = False
+                await asyncio.sleep(0.2)
+
+    aborted = None
+    with env:
+        try:
+            sched.spawn("parent", parent)
+            aborted = sched.run()
+        except SimStall as e:
+            obs["outcome"] = f"SimStall: {e}"
+        obs["loop_exceptions"] = [x for x in env.loop_exceptions() if x[1] != "CancelledError"]
+        for p in sched.procs:
+            if p.exc is not None and type(p.exc).__name__ != "SimKilled" and obs["outcome"] is None:
+                obs["outcome"] = f"harness/{p.name}: {type(p.exc).__name__}: {p.exc}"
+    if aborted and obs["outcome"] is None:
+        obs["outcome"] = "harness/" + aborted
+    obs.setdefault("al_logs", [])
+    obs.setdefault("al_states", [])
+    obs.setdefault("fmmu_used", [])
+    obs["digest"] = world.digest.hexdigest()
+    obs["sim_time"] = world.now
+    obs["specs"] = specs
+    obs["links"] = links
+    return obs
+
+
+class ProcDev:
+    """module-level (picklable) device for the process kind"""
+
+
+def build_devices_picklable(tape, terms, links):
+    from ebpfcat.ebpfcat import Device, PacketVar, TerminalVar
+    from ebpfcat.ethercat import SyncManager
+    global PDev
+    if "PDev" not in globals():
+        ns = {f"i{i}": TerminalVar() for i in range(4)}
+        ns.update({f"o{i}": TerminalVar() for i in range(4)})
+
+        def update(self):
+            for i in range(self.nin):
+                getattr(self, f"i{i}")
+            for j in range(self.nout):
+                setattr(self, f"o{j}", self.outvals[j])
+        ns["update"] = update
+        PDev = type("PDev", (Device,), ns)
+        PDev.__module__ = __name__
+        PDev.__qualname__ = "PDev"
+    d = PDev()
+    ins = [ln for ln in links if ln["sm"] == "in"][:4]
+    outs = [ln for ln in links if ln["sm"] == "out"][:4]
+    d.nin, d.nout = len(ins), len(outs)
+    d.outvals = [wl.draw_value(tape, ln, "c24") for ln in outs]
+    for i, ln in enumerate(ins):
+        setattr(d, f"i{i}", PacketVar(terms[ln["term"]], SyncManager.IN, ln["pos"], ln["size"]))
+    for j, ln in enumerate(outs):
+        setattr(d, f"o{j}", PacketVar(terms[ln["term"]], SyncManager.OUT, ln["pos"], ln["size"]))
+    return [d]
+
+
 def run(tape, scenario):
     kind = scenario
     # the configuration is whatever the first simulation draws; record it by
     # running the reference simulation on the live tape
     probe = Tape(seed=tape.draw("c24/config-seed", 1 << 30))
-    ref = simulate(kind, probe)
+    sim = (lambda k, v, **kw: simulate_process(v, **kw)) if kind == "process" else simulate
+    ref = sim(kind, probe)
     values = list(probe.values)
     violations = []
     stats = {"c24/simulations": 1}
     sim_time = ref["sim_time"]
     nontrivial = 0
     distinct = set()
-    if ref["outcome"] != "cancelled" or "ref_steps" not in ref:
+    if "ref_steps" in ref and ref["outcome"] != "cancelled":
+        r = judge(kind, ref, "cancel after the group had cycled")
+        violations.append({"rule": r[0], "params": r[2], "detail": r[1]})
+        S = 0
+    elif ref["outcome"] != "cancelled" or "ref_steps" not in ref:
         violations.append({"rule": "reference-run-failed", "params": {"kind": kind},
                            "detail": f"reference run: outcome {ref['outcome']!r} after "
                                      f"{ref['cycles']} cycles; specs {ref['specs']}"})
@@ -185,7 +326,7 @@ def run(tape, scenario):
     for n in range(1, S + 1):
         if violations:
             break
-        obs = simulate(kind, values, cancel_step=n)
+        obs = sim(kind, values, cancel_step=n)
         stats["c24/simulations"] += 1
         sim_time += obs["sim_time"]
         nontrivial += bool(obs.get("started"))
@@ -194,9 +335,9 @@ def run(tape, scenario):
         if r is not None:
             violations.append({"rule": r[0], "params": r[2], "detail": r[1]})
     if not violations and ref.get("ref_time"):
-        for j in range(8):
+        for j in range(4 if kind == "process" else 8):
             t = ref["ref_time"] * (1 + tape.draw("c24/cancel-time", 1000)) / 1000.0
-            obs = simulate(kind, values, cancel_time=t)
+            obs = sim(kind, values, cancel_time=t)
             stats["c24/simulations"] += 1
             stats["c24/timed-cancels"] = stats.get("c24/timed-cancels", 0) + 1
             sim_time += obs["sim_time"]
